@@ -41,14 +41,16 @@ checks = {
    "Eight pair kinds (crop classic/YAML/converter-binary YAML, soil, rotation, measurement txt/CSV, weather layouts 0/1/2, date formats); every shipped annual main crop file covered; 12 significant digits of daily state compared."),
  "C18": ("pairmon", "exploration", "3 C18", "runtime monitoring: differential paired runs of the real model, override on the batch line vs the same edit in a copied parameter folder; result files compared byte for byte",
    "Every overridable base / per-stage / per-organ parameter x every shipped annual main crop file; valid values: override == file edit; out-of-range value or index: run == run without overrides."),
+ "C03": ("batchmon", "exploration", "3 C03", "runtime monitoring: Go race detector + event-trace checker + result-hash comparison over the real hermes2go binary under randomised schedules (concurrency, line order, GOMAXPROCS, injected delays); porcupine linearizability check of recorded file-pool histories",
+   "Every line's result files equal its solo reference under every explored schedule, repeated solo runs reproduce, exactly one run_start/run_end per line in the trace, no race report, file-pool histories linearizable against a load-once model; the interleavings seen (max simultaneous runs, distinct completion orders) are reported."),
+ "C11": ("batchmon", "fault_enumeration", "3 C11", "runtime monitoring: fault enumeration (reported-error class x position x concurrency) over the real hermes2go binary with race detector, trace checker and result-hash comparison; bounded-progress monitor on logical steps for termination",
+   "Seven reported-error classes each fail only their own line with the expected message, all other lines equal their solo results, the summary lists exactly the failed ids; runs incl. fertiliser prediction at latitudes -70..80 stay within the logical step bounds; a crash on a valid generated input is reported."),
 }
 
 not_applicable = {
 }
 
 pending = {  # not yet built: listed as not claimed until their check exists
- "C03": "check under construction (batch/race engine)",
- "C11": "check under construction",
 }
 
 def main():
@@ -62,6 +64,8 @@ def main():
         "kind_free_text": "in-process monitors on probes of the real day loop, child worker processes, seeded scenario generator"},
        {"name": "fnmon", "path": "harness/", "serves_properties": sorted(k for k,v in checks.items() if "fnmon" in v[0] or k in ("C20",)),
         "kind_free_text": "dense / exhaustive execution of real public functions and real binaries against independent reference oracles, sharded over child processes"},
+       {"name": "batchmon", "path": "harness/", "serves_properties": sorted(k for k,v in checks.items() if "batchmon" in v[0]),
+        "kind_free_text": "black-box batch/concurrency monitor over the real hermes2go binary built with -race and the verif hooks: event trace, seeded delays, race logs, result hashes vs solo references; porcupine on file-pool histories"},
        {"name": "pairmon", "path": "harness/", "serves_properties": sorted(k for k,v in checks.items() if "pairmon" in v[0]),
         "kind_free_text": "differential paired runs of the real model (two encodings of one content / override vs file edit), byte comparison of result files"},
      ],
